@@ -1,0 +1,7 @@
+//go:build !verif
+
+package ptt
+
+import "github.com/Ptt-official-app/go-pttbbs/ptttype"
+
+func verifPoint(name string, user *ptttype.UserecRaw, uid ptttype.UID) {}
